@@ -10,7 +10,7 @@
     keys, number of handles or length of the history. *)
 From Coq Require Import NArith List Bool Arith Permutation.
 From KdV Require Import Cache.CacheList Cache.CacheSpec Cache.CacheMain Cache.CacheJudge
-  Cache.CacheRing.
+  Cache.CacheRing Cache.RingLinked Cache.RingRefines.
 Import ListNotations.
 
 (** a fresh cache of any positive capacity satisfies the invariant *)
@@ -119,16 +119,12 @@ Theorem C06_busy_iff_full : forall s k, Inv s -> (forall e, In e (cached s) -> k
 Proof. exact busy_iff. Qed.
 Print Assumptions C06_busy_iff_full.
 
-(** "its partition counters always add up": the five partition sizes are the
-    ring length, ring + in-flight list are the [2*cap] entries, and cached +
-    in-flight entries never exceed the capacity.
-    "its circular list stays well-formed" is proved at list level only
-    (hence [_partial]): ring and in-flight list are duplicate-free, disjoint
-    and contain exactly the entries [0 .. 2*cap-1].  The pointer-level
-    statement (next/prev inverse of each other, one cycle each) is not
-    proved; the correspondence driver observes it on every step by following
-    the real pointers. *)
-Theorem C06_counters_add_up_ring_wellformed_partial : forall s, Inv s ->
+(** "its partition counters always add up" (list level; the pointer level is
+    [C06_ring_wellformed] below): the five partition sizes are the ring
+    length, ring + in-flight list are the [2*cap] entries, cached + in-flight
+    entries never exceed the capacity, ring and in-flight list are
+    duplicate-free, disjoint and contain exactly the entries [0 .. 2*cap-1] *)
+Theorem C06_counters_add_up : forall s, Inv s ->
   length (prec s) + length (gprec s) + length (unused s) + length (gprobe s) +
     length (probe s) = length (ring s) /\
   length (ring s) + length (infl s) = 2 * cap s /\
@@ -136,17 +132,71 @@ Theorem C06_counters_add_up_ring_wellformed_partial : forall s, Inv s ->
   NoDup (ring s ++ infl s) /\
   (forall e, In e (ring s ++ infl s) <-> e < 2 * cap s).
 Proof. exact counters_add_up. Qed.
-Print Assumptions C06_counters_add_up_ring_wellformed_partial.
+Print Assumptions C06_counters_add_up.
 
-(** pointer level, primitives only (hence [_partial]): on a well-formed
-    circular doubly linked list ([linked nx pv l]: [l] in [next] order, any
-    rotation, no repetition, every element points to its cyclic successor and
-    predecessor) [remove_entry], [add_entry_after], [add_entry_before]
-    (transcribed statement by statement over the [next]/[prev] functions)
-    perform exactly the list edits the list-level model assumes and keep the
-    list well-formed.  The composite operations' [split] bookkeeping is not
-    proved at this level. *)
-Theorem C06_ring_primitives_partial : forall nx pv l1 x l2,
+(** Pointer level.  [CacheRing.v] transcribes cache.c over the [next]/[prev]
+    members, [split], the four counters and the in-flight head (every helper:
+    add_entry_after/before, remove_entry, add_inflight, reuse_cached_entry,
+    evict_probe/prec, reclaim_data with the repaired walk, get_missed_entry,
+    get_ghost_or_missed_entry, cache_insert, cache_discard, cache_flush,
+    cache_alloc).  [R r s]: the main ring of [r], read in next order so that
+    [split] comes last, is [prec s ++ gprec s ++ unused s ++ rev (gprobe s) ++
+    rev (probe s)], both rings are well-formed circular doubly linked lists
+    ([linked]) over disjoint entries, the counters are the partition lengths,
+    the in-flight ring read from [inflight] is [infl s], everything else agrees.
+
+    Simulation: from related states every legal operation succeeds on both
+    levels with the same result and the same cleanup calls, and ends in
+    related states (and the list-level invariant holds again). *)
+Theorem C06_ring_refines_lists : forall r s o, R r s -> Inv s -> legal s o ->
+  exists s' r' x ev, step true s o = Ok (s', x, ev) /\ rstep r o = ROk (r', x, ev) /\
+                     R r' s' /\ Inv s'.
+Proof. exact ring_refines. Qed.
+Print Assumptions C06_ring_refines_lists.
+
+Theorem C06_ring_refines_histories : forall ops r s, R r s -> Inv s -> legal_hist true s ops ->
+  exists r' s', rrun r ops = ROk r' /\ run true s ops = Ok s' /\ R r' s' /\ Inv s'.
+Proof. exact ring_refines_history. Qed.
+Print Assumptions C06_ring_refines_histories.
+
+(** the relation [R] is the abstraction function "walk next from
+    ce[split].next: nprec entries = prec, then ngprec = gprec, then the unused
+    ones, then ngprobe (reversed) = gprobe, then nprobe (reversed) = probe;
+    walk next from inflight: ninflight entries = infl" *)
+Theorem C06_ring_abstraction : forall r s, R r s -> Inv s ->
+  abs_lists r = (prec s, gprec s, unused s, gprobe s, probe s, infl s).
+Proof. exact R_abs. Qed.
+Print Assumptions C06_ring_abstraction.
+
+(** "its circular list stays well-formed", for every legal history from a
+    fresh cache, at pointer level: the pointer-level run succeeds (no unset
+    cache_search member, no counter underflow), its final state represents
+    the list-level final state, and ([ring_wf]) the entries reached from
+    ce[split].next form a well-formed circular doubly linked list ending in
+    [split], the entries reached from [inflight] another one, the two are
+    disjoint and together are exactly the [2*cap] entries, and the counters
+    fit: nprec+ngprec+nprobe+ngprobe <= ring length = 2*cap - ninflight,
+    nprec+nprobe+ninflight <= cap *)
+Theorem C06_ring_wellformed : forall c ops, 0 < c -> legal_hist true (init c) ops ->
+  exists r' s', rrun (rinit c) ops = ROk r' /\ run true (init c) ops = Ok s' /\
+                R r' s' /\ Inv s' /\ ring_wf r' /\
+                abs_lists r' = (prec s', gprec s', unused s', gprobe s', probe s', infl s').
+Proof. exact ring_wellformed_history. Qed.
+Print Assumptions C06_ring_wellformed.
+
+(** what [linked] says pointwise: on the elements of a well-formed ring
+    [next] and [prev] are inverse bijections, and following [next] from any
+    element visits every element exactly once and comes back (one cycle) *)
+Theorem C06_linked_inverse_one_cycle : forall nx pv l x, linked nx pv l -> In x l ->
+  (pv (nx x) = x /\ nx (pv x) = x /\ In (nx x) l /\ In (pv x) l) /\
+  (exists l1 l2, l = l1 ++ x :: l2 /\
+     walk nx (length l) x = x :: l2 ++ l1 /\ chase nx (length l) x = x).
+Proof. exact (fun nx pv l x H Hi => conj (linked_inverse nx pv l x H Hi) (linked_one_cycle nx pv l x H Hi)). Qed.
+Print Assumptions C06_linked_inverse_one_cycle.
+
+(** the three pointer primitives on their own: on a well-formed ring they
+    perform exactly the list edits (remove / insert next to) *)
+Theorem C06_ring_primitives : forall nx pv l1 x l2,
   linked nx pv (l1 ++ x :: l2) ->
   (l1 ++ l2 <> [] ->
    linked (fst (remove_entry nx pv x)) (snd (remove_entry nx pv x)) (l1 ++ l2)) /\
@@ -161,7 +211,7 @@ Proof.
          (fun e Hn => conj (add_entry_after_linked nx pv l1 x l2 e H Hn)
                            (add_entry_before_linked nx pv l1 x l2 e H Hn))).
 Qed.
-Print Assumptions C06_ring_primitives_partial.
+Print Assumptions C06_ring_primitives.
 
 (** the pinned (unrepaired) reclaim_data does not satisfy the property: two
     legal histories at capacity 2 on which the faithful model of the pinned
@@ -191,6 +241,11 @@ Print Assumptions C06_judge_sound_step.
 Theorem C06_judge_complete_state : forall s, scoped s -> invb s = true -> Inv s.
 Proof. exact invb_complete. Qed.
 Print Assumptions C06_judge_complete_state.
+
+Theorem C06_judge_complete_step : forall s o r ev s',
+  scoped s -> frame_outside s s' -> step_okb s o r ev s' = true -> step_ok s o r ev s'.
+Proof. exact step_okb_complete. Qed.
+Print Assumptions C06_judge_complete_step.
 
 (** non-vacuity: the two witness histories are legal for the repaired code
     as well and run to completion (with evictions, ghost hits, a discard and
